@@ -346,6 +346,7 @@ def _cvc5_check(asserts, timeout_s, vars_, opts=('--solve-bv-as-int=sum',), logi
     txt = re.sub(r'\b(bvurem|bvudiv|bvsdiv|bvsrem|bvsmod)_i\b', r'\1', txt)    # z3-internal names of the SMT-LIB (total) operators
     head = '(set-option :produce-models true)\n' + ('(set-logic %s)\n' % logic if logic else '(set-logic ALL)\n')
     names = [v.sexpr() for v in vars_]
+    names = [n for n in names if ('(declare-fun %s ' % n) in txt or ('(declare-const %s ' % n) in txt]   # inputs the formula does not mention are not declared (cvc5: parse error, model lost); they default to 0
     tail = '(check-sat)\n' + ('(get-value (%s))\n' % ' '.join(names) if names else '')
     path = os.path.join(scratch(), 'q%d_%d.smt2' % (os.getpid(), random.getrandbits(32)))
     with open(path, 'w') as f: f.write(head + txt + tail)
@@ -537,6 +538,7 @@ class Session:
         if side:
             groups = {}
             for kind, cond, d in res.obligations:
+                if ubsan and kind == 'unreachable': continue      # clang emits 'unreachable' after every llvm.ubsantrap (already an obligation); genuine unreachables are instrumented as traps
                 groups.setdefault((kind, d), []).append(cond)
             for (kind, d), conds in groups.items():
                 s._prove_known(name + '.%s[%s]' % (kind, d[:60]), z3.Not(z3.Or(*conds)) if len(conds) > 1 else z3.Not(conds[0]), hyps, res, known, timeout=timeout, solver=solver, kind=kind, functions=fnlist, bounds=binfo, spec_fn=None, pre_fn=pre, unit=unit, fname=fname, mode=mode, vars_=allvars, mandatory=mandatory)
@@ -695,6 +697,10 @@ class Session:
                 else:
                     v = m.eval(t, model_completion=True); row.append(z3val_to_fraction(v))
             vals.append(row)
+        hook = getattr(res.ex, 'model_inputs_hook', None)     # e.g. realtrig: choose angle inputs that realise the model's sin/cos values
+        if hook is not None and not isinstance(m, dict):
+            try: vals = hook(m, res, vals)
+            except Exception: pass
         return vals
 
     def _replayer(s, res, spec_fn, pre_fn, unit, fname, mode, oname, side_kind=None):
